@@ -43,10 +43,11 @@ AnisoAll(nd)   == IF nd = 1 THEN {"iso"} ELSE {"iso", "aniso", "rotaniso"}
 H(c) == c.nd + c.alpha2 + c.sill2 + c.mesh.nx[1] + (IF c.rot[1] = 0 THEN 0 ELSE 1)
         + (IF c.aniso = "iso" THEN 0 ELSE IF c.aniso = "aniso" THEN 1 ELSE 2)
         + (CASE c.layout = "spread" -> 0 [] c.layout = "cluster" -> 1 [] c.layout = "nodes" -> 2 [] OTHER -> 3)
+        + (CASE c.verr = "const" -> 0 [] c.verr = "distinct" -> 1 [] OTHER -> 2)
         + (CASE c.mesh.fam = "turbo" -> 0 [] c.mesh.fam = "turbopol" -> 1 [] c.mesh.fam = "std_alt" -> 2 [] c.mesh.fam = "turbomask" -> 4 [] OTHER -> 3)
-\* quick: one configuration out of four of the product, chosen by a fixed rule
-KeepQuick(c) == H(c) % 4 = 0
-KeepThor(c)  == H(c) % 2 = 0
+\* quick: one configuration out of seven of the product, chosen by a fixed rule; thorough: one out of three
+KeepQuick(c) == H(c) % 7 = 0
+KeepThor(c)  == H(c) % 3 = 0
 KeepAll(c)   == TRUE
 
 Coefs == { <<1, 1>>, <<1, 2, 1>>, <<1, 3, 3, 1>>, <<2, 0, -1>>, <<-1, 2, 0, 1>>, <<3>>, <<0, 0, 0, 0, 1>>, <<1, -1, 1, -1, 1, -1>> }
